@@ -116,7 +116,7 @@ class Case:
     outs = {'I': [...], 'R': [...], 'F': [...]} (one output string per line, for the engines requested)
     kind: 'corr-R' (impl vs exact model), 'corr-F' (impl vs float model: transcription), 'oracle' (impl vs spec)
     """
-    __slots__ = ('lines', 'need', 'judge', 'stratum', 'kind', 'meta')
+    __slots__ = ('lines', 'need', 'judge', 'stratum', 'kind', 'meta', 'followup')
 
     def __init__(self, lines, need, judge, stratum='generic', kind='corr-R', meta=None):
         self.lines = lines if isinstance(lines, list) else [lines]
@@ -125,6 +125,7 @@ class Case:
         self.stratum = stratum
         self.kind = kind
         self.meta = meta or {}
+        self.followup = None
 
 
 def case_exact_R(line, stratum='grid', ulp=0):
@@ -369,7 +370,7 @@ class EngineDied(Exception):
         super().__init__(f'engine {cmd} died after {n_out} of {len(lines)} lines: {stderr[-300:]}')
 
 
-def run_cases(cases, kvh=KVH, nproc=8, heavy=False):
+def run_cases(cases, kvh=KVH, nproc=8, heavy=False, _depth=0):
     """run all lines of all cases through the engines they need; returns list of (case, outs, verdict)"""
     per = {'I': [], 'R': [], 'F': []}
     index = []   # per case: {engine: (start, n)}
@@ -400,9 +401,21 @@ def run_cases(cases, kvh=KVH, nproc=8, heavy=False):
     else:
         verdicts = [_judge_idx(k) for k in range(n)]
     results = []
+    followups = []
     for k, (c, ix) in enumerate(zip(cases, index)):
         o = {eng: outs[eng][s:s + m] for eng, (s, m) in ix.items()}
         results.append((c, o, verdicts[k]))
+        fu = getattr(c, 'followup', None)
+        if fu is not None and verdicts[k] is None and _depth == 0:
+            try:
+                nc = fu(o)
+            except Exception as ex:
+                nc = None
+                results[-1] = (c, o, f'followup raised {ex!r}')
+            if nc is not None:
+                followups.append(nc)
+    if followups:
+        results += run_cases(followups, kvh=kvh, nproc=nproc, heavy=heavy, _depth=1)
     return results
 
 
